@@ -32,10 +32,14 @@ U_ACCOUNT = "M\u00fcller-\u00d1and\u00fa"
 U_TEXT = "caf\u00e9 \u20ac5 \u6f22\u5b57 \U0001f600"
 U_TICKER = "M\u00dcL.\u20ac"
 ENDS = ["IO", "AO"]
+# initiator: send_test_req() and, without waiting for the answer, disconnect(logout_message=...); only as the
+# end of scripts of length <= 3
+END_NOWAIT = "ID"
 STEP_NAME = {
     "IL": "initiator_logon", "IA": "initiator_app_message", "IT": "initiator_test_request",
     "IH": "initiator_heartbeat", "IO": "initiator_logout", "AA": "acceptor_app_message",
     "AT": "acceptor_test_request", "AH": "acceptor_heartbeat", "AO": "acceptor_logout",
+    "ID": "initiator_test_request_then_logout_without_waiting",
     "IU": "initiator_app_message_non_ascii", "AU": "acceptor_app_message_non_ascii",
 }
 MASKED = {"52", "10", "9"}
@@ -101,6 +105,13 @@ def m_acc_app_u(ft, i):
     m = ft.fix_exec_report_msg(o, o.clord_id, FExecType.PENDING_NEW, FOrdStatus.PENDING_NEW)
     m[58] = U_TEXT
     return m
+
+
+async def testreq_then_logout(c):
+    from asyncfix.connection import ConnectionState
+
+    await c.send_test_req()
+    await c.disconnect(ConnectionState.DISCONNECTED_WCONN_TODAY, logout_message="bye")
 
 
 def m_plain(t):
@@ -170,6 +181,8 @@ class TesterWorld(_Base):
             r = self.call(c.send_msg(m_plain("0")))
         elif code == "IO":
             r = self.call(c.send_msg(m_plain("5")))
+        elif code == "ID":
+            r = self.call(testreq_then_logout(c))
         elif code == "IU":
             r = self.call(c.send_msg(m_ini_app_u(i)))
         elif code == "AU":
@@ -194,18 +207,28 @@ class TesterWorld(_Base):
 
 
 class LinkWriter(FakeWriter):
-    """FakeWriter whose bytes arrive at the peer's reader; close() = EOF at the peer."""
+    """FakeWriter whose bytes arrive at the peer's reader.  close() closes the whole socket as a TCP transport
+    does: EOF at the peer, EOF for the own pending read, and bytes the peer writes afterwards are lost."""
 
-    def __init__(self, name, peer_reader):
+    def __init__(self, name, peer_reader, own_reader):
         super().__init__(name)
         self.peer_reader = peer_reader
-        self.sink = peer_reader.feed
+        self.own_reader = own_reader
+        self.sink = self._deliver
+        self.lost = 0
+
+    def _deliver(self, data):
+        if self.peer_reader.eof:
+            self.lost += 1  # the peer has closed its socket (or we have): nothing arrives
+        else:
+            self.peer_reader.feed(data)
 
     def close(self):
         first = not self.closed
         super().close()
         if first:
             self.peer_reader.feed_eof()
+            self.own_reader.feed_eof()
 
 
 class RealWorld(_Base):
@@ -230,8 +253,8 @@ class RealWorld(_Base):
         self.c = ini_class()(FIXProtocol44(), ini, acc, self.j, "localhost", "64444", heartbeat_period=30)
         self.j.set_seq_num(session_of(self.c), next_num_out=start[0], next_num_in=start[1])
         self.c_r, self.s_r = FakeReader(), FakeReader()
-        self.c_w = LinkWriter("c", self.s_r)
-        self.s_w = LinkWriter("s", self.c_r)
+        self.c_w = LinkWriter("c", self.s_r, self.c_r)
+        self.s_w = LinkWriter("s", self.c_r, self.s_r)
         # acceptor: its own connect() -> fake start_server -> accept callback
         self.loop.create_task(self.s.connect())
         self.loop.run_ready()
@@ -266,6 +289,8 @@ class RealWorld(_Base):
             return self.call(c.send_msg(m_plain("0")))
         if code == "IO":
             return self.call(c.send_msg(m_plain("5")))
+        if code == "ID":
+            return self.call(testreq_then_logout(c))
         if code == "IU":
             return self.call(c.send_msg(m_ini_app_u(i)))
         if code == "AU":
@@ -336,6 +361,9 @@ def _scripts(maxlen, mids):
 def scripts(maxlen):
     """Maximal clean scripts (every prefix is compared on the way): Logon first, nothing after a Logout.
     ASCII alphabet up to maxlen; with the two non-ASCII application messages up to maxlen - 1."""
+    yield ["IL", END_NOWAIT]
+    for m in MIDS_U:
+        yield ["IL", m, END_NOWAIT]
     for sc in _scripts(maxlen - 1, MIDS_U):
         if "IU" in sc or "AU" in sc:
             yield sc
